@@ -1,6 +1,12 @@
 mod abi;
+mod breadcrumb;
 mod mapwatch;
+mod ops;
+mod opsworld;
+mod props;
+mod report;
 mod schx;
+mod seqx;
 mod simk;
 mod talloc;
 mod waker;
@@ -8,58 +14,408 @@ mod waker;
 #[global_allocator]
 static ALLOC: talloc::Talloc = talloc::Talloc;
 
-use std::future::Future;
-use std::pin::Pin;
-use std::task::{Context, Poll};
+use std::collections::HashSet;
+use std::io::Write;
+use std::process::{Command, Stdio};
 
-fn smoke() {
-    assert!(mapwatch::selftest(), "interposer dead");
+use serde_json::{Value, json};
+
+const VERIF: &str = "/verif";
+
+fn init_process() {
+    assert!(mapwatch::selftest(), "MACHINERY: mmap/munmap/close interposer is not live");
     simk::install();
-    talloc::set_on_free(Some(simk::on_free));
-    let t0 = std::time::Instant::now();
-    let n = 20000;
-    for it in 0..n {
-        simk::reset(simk::SetupPlan::default());
-        talloc::arm();
-        let w = waker::HWaker::new(1);
-        let res = talloc::track(|| {
-            let mut ring = a10::Ring::config().with_submission_queue_size(2).build().unwrap();
-            let sq = ring.sq();
-            let fd = simk::with(|k| k.new_regular_pub());
-            let afd = unsafe { a10::AsyncFd::from_raw_fd(fd, sq) };
-            let mut fut = Box::pin(afd.read(Vec::with_capacity(8)));
-            let mut cx = Context::from_waker(&w.waker);
-            assert!(fut.as_mut().poll(&mut cx).is_pending());
-            ring.poll(Some(std::time::Duration::ZERO)).unwrap();
-            let s = simk::with(|k| k.inflight());
-            assert_eq!(s.len(), 1);
-            simk::with(|k| k.complete(s[0], simk::Out::Res(5)));
-            ring.poll(Some(std::time::Duration::ZERO)).unwrap();
-            let r = match fut.as_mut().poll(&mut cx) {
-                Poll::Ready(r) => r.unwrap(),
-                Poll::Pending => panic!("pending"),
-            };
-            drop(fut);
-            drop(afd);
-            drop(ring);
-            r
-        });
-        let viol = simk::with(|k| std::mem::take(&mut k.violations));
-        let log = simk::with(|k| k.log.len());
-        simk::shutdown();
-        let rep = talloc::disarm();
-        if it == 0 || it == n - 1 {
-            println!("res={res:?} wakes={} viol={viol:?} log={log} leaked={:?} df={} tracked={}", w.wakes(), rep.leaked, rep.double_frees, rep.tracked);
-            println!("map events: {:?}", mapwatch::events());
+    seqx::install_panic_hook();
+    // Plenty of descriptors for leaked executions.
+    unsafe {
+        let mut lim = libc::rlimit { rlim_cur: 0, rlim_max: 0 };
+        if libc::getrlimit(libc::RLIMIT_NOFILE, &mut lim) == 0 {
+            lim.rlim_cur = lim.rlim_max.min(65536);
+            libc::setrlimit(libc::RLIMIT_NOFILE, &lim);
         }
     }
-    println!("{:?} per history", t0.elapsed() / n);
+}
+
+fn scratch_dir() -> String {
+    let d = format!("{VERIF}/scratch");
+    std::fs::create_dir_all(&d).unwrap();
+    d
+}
+
+fn seed() -> i64 {
+    std::env::var("VERIF_SEED").ok().and_then(|s| s.parse().ok()).unwrap_or(0)
+}
+
+fn nworkers() -> usize {
+    std::env::var("A10MC_WORKERS").ok().and_then(|s| s.parse().ok()).unwrap_or_else(|| {
+        std::thread::available_parallelism().map(|n| n.get()).unwrap_or(4).min(16)
+    })
+}
+
+/// `worker <prop> <tier> <harness> <shard> <nshards> <out>`
+fn worker(args: &[String]) -> i32 {
+    init_process();
+    let prop = &args[0];
+    let tier = &args[1];
+    let hidx: usize = args[2].parse().unwrap();
+    let shard: usize = args[3].parse().unwrap();
+    let nshards: usize = args[4].parse().unwrap();
+    let out = &args[5];
+    breadcrumb::init(&format!("{out}.crumb"));
+    let hs = props::harnesses(prop, tier);
+    let h = &hs[hidx];
+    let mut b = h.bounds.clone();
+    b.shard = (shard, nshards);
+    let t0 = std::time::Instant::now();
+    let stats = (h.run)(&b);
+    let wall = t0.elapsed().as_secs_f64();
+    // Keys as raw u64s.
+    let mut kf = std::fs::File::create(format!("{out}.keys")).unwrap();
+    let mut buf = Vec::with_capacity(stats.states.len() * 8);
+    for k in &stats.states {
+        buf.extend_from_slice(&k.to_ne_bytes());
+    }
+    kf.write_all(&buf).unwrap();
+    let found: Vec<Value> = stats
+        .found
+        .iter()
+        .map(|f| json!({"prop": f.violation.prop, "sig": f.violation.sig, "msg": f.violation.msg, "choices": f.choices, "history": f.history}))
+        .collect();
+    let v = json!({
+        "executions": stats.executions,
+        "transitions": stats.transitions,
+        "outcomes": stats.outcomes.iter().collect::<Vec<_>>(),
+        "max_depth": stats.max_depth,
+        "pruned": stats.pruned,
+        "dev_skipped": stats.dev_skipped,
+        "capped": stats.capped,
+        "per_depth": stats.per_depth,
+        "found": found,
+        "samples": stats.samples,
+        "wall_s": wall,
+    });
+    report::write_json(out, &v);
+    0
+}
+
+struct Candidate {
+    prop: String,
+    sig: String,
+    msg: String,
+    harness: usize,
+    harness_name: String,
+    choices: Vec<usize>,
+    history: Vec<String>,
+}
+
+fn replay_file(prop: &str, tier: &str, c: &Candidate) -> String {
+    let dir = format!("{VERIF}/replays");
+    std::fs::create_dir_all(&dir).unwrap();
+    let h = report::hash_str(&format!("{}{}{:?}", c.sig, c.harness_name, c.choices));
+    let path = format!("{dir}/{prop}-{:08x}.json", h as u32);
+    report::write_json(
+        &path,
+        &json!({
+            "property": c.prop,
+            "checked_by": prop,
+            "tier": tier,
+            "harness_index": c.harness,
+            "harness": c.harness_name,
+            "signature": c.sig,
+            "message": c.msg,
+            "choices": c.choices,
+            "history": c.history,
+        }),
+    );
+    path
+}
+
+/// Replay a file in a fresh process; returns the signatures it reproduced.
+fn replay_in_child(path: &str) -> Result<Vec<String>, String> {
+    let exe = std::env::current_exe().unwrap();
+    let out = Command::new(exe).args(["replay-inner", path]).stderr(Stdio::null()).output().map_err(|e| e.to_string())?;
+    let text = String::from_utf8_lossy(&out.stdout).to_string();
+    let mut sigs: Vec<String> = text.lines().filter_map(|l| l.strip_prefix("REPRODUCED ")).map(|s| s.to_string()).collect();
+    if !out.status.success() && out.status.code().is_none() {
+        use std::os::unix::process::ExitStatusExt;
+        sigs.push(format!("crash/signal-{}", out.status.signal().unwrap_or(0)));
+    }
+    Ok(sigs)
+}
+
+fn replay_inner(path: &str) -> i32 {
+    init_process();
+    let v: Value = serde_json::from_str(&std::fs::read_to_string(path).expect("reading replay file")).expect("parsing replay file");
+    let prop = v["checked_by"].as_str().unwrap();
+    let tier = v["tier"].as_str().unwrap();
+    let hidx = v["harness_index"].as_u64().unwrap() as usize;
+    let choices: Vec<usize> = v["choices"].as_array().unwrap().iter().map(|c| c.as_u64().unwrap() as usize).collect();
+    let hs = props::harnesses(prop, tier);
+    let h = &hs[hidx];
+    let r = (h.replay)(&choices);
+    if r.bad_choice {
+        println!("DIVERGED");
+        return 2;
+    }
+    for (i, a) in r.history.iter().enumerate() {
+        println!("  {i:2}: {a}");
+    }
+    for viol in &r.violations {
+        println!("REPRODUCED {}", viol.sig);
+        println!("  property={} {}", viol.prop, viol.msg);
+    }
+    if r.violations.is_empty() { 0 } else { 1 }
+}
+
+/// `replay <file>`: user facing.
+fn replay(path: &str) -> i32 {
+    let v: Value = serde_json::from_str(&std::fs::read_to_string(path).expect("reading replay file")).expect("parsing replay file");
+    let want = v["signature"].as_str().unwrap_or("").to_string();
+    let prop = v["property"].as_str().unwrap_or("").to_string();
+    let exe = std::env::current_exe().unwrap();
+    let out = Command::new(exe).args(["replay-inner", path]).output().expect("spawn");
+    let text = String::from_utf8_lossy(&out.stdout).to_string();
+    print!("{text}");
+    let sigs: Vec<&str> = text.lines().filter_map(|l| l.strip_prefix("REPRODUCED ")).collect();
+    let crashed = out.status.code().is_none();
+    if sigs.contains(&want.as_str()) || (crashed && want.starts_with("crash/")) {
+        println!("VIOLATION property={prop} replay={path}");
+        1
+    } else {
+        println!("not reproduced (wanted {want})");
+        0
+    }
+}
+
+fn check(prop: &str, tier: &str) -> i32 {
+    let t0 = std::time::Instant::now();
+    let hs = props::harnesses(prop, tier);
+    if hs.is_empty() {
+        println!("MACHINERY: no harness for {prop}");
+        return 2;
+    }
+    let exe = std::env::current_exe().unwrap();
+    let scratch = scratch_dir();
+    let run_id = format!("{prop}-{tier}-{}", std::process::id());
+    let n = nworkers();
+    let mut total_exec = 0u64;
+    let mut total_trans = 0u64;
+    let mut states: HashSet<u64> = HashSet::new();
+    let mut outcomes: HashSet<u64> = HashSet::new();
+    let mut samples: Vec<Value> = Vec::new();
+    let mut harness_reports = Vec::new();
+    let mut candidates: Vec<Candidate> = Vec::new();
+    let mut capped = false;
+    let mut machinery: Vec<String> = Vec::new();
+    for (hi, h) in hs.iter().enumerate() {
+        let th = std::time::Instant::now();
+        let mut children = Vec::new();
+        for s in 0..n {
+            let out = format!("{scratch}/{run_id}-h{hi}-s{s}.json");
+            let child = Command::new(&exe)
+                .args(["worker", prop, tier, &hi.to_string(), &s.to_string(), &n.to_string(), &out])
+                .stdout(Stdio::null())
+                .stderr(Stdio::piped())
+                .spawn()
+                .expect("spawning worker");
+            children.push((out, child));
+        }
+        let mut h_exec = 0u64;
+        let mut h_trans = 0u64;
+        let mut h_states: HashSet<u64> = HashSet::new();
+        let mut h_pruned = 0u64;
+        let mut h_maxd = 0u64;
+        let mut per_depth: Vec<u64> = Vec::new();
+        for (out, child) in children {
+            let res = child.wait_with_output().expect("waiting for worker");
+            if !res.status.success() {
+                use std::os::unix::process::ExitStatusExt;
+                let crumb = breadcrumb::read(&format!("{out}.crumb"));
+                let stderr = String::from_utf8_lossy(&res.stderr).to_string();
+                match (res.status.signal(), crumb) {
+                    (Some(sig), Some((_, choices))) => candidates.push(Candidate {
+                        prop: prop.to_string(),
+                        sig: format!("crash/signal-{sig}"),
+                        msg: format!("worker died with signal {sig} while running this history"),
+                        harness: hi,
+                        harness_name: h.name.clone(),
+                        choices,
+                        history: Vec::new(),
+                    }),
+                    _ => machinery.push(format!("worker for harness {} failed: {:?} {}", h.name, res.status, stderr.lines().last().unwrap_or(""))),
+                }
+                continue;
+            }
+            let v: Value = match std::fs::read_to_string(&out).ok().and_then(|s| serde_json::from_str(&s).ok()) {
+                Some(v) => v,
+                None => {
+                    machinery.push(format!("worker output {out} unreadable"));
+                    continue;
+                }
+            };
+            h_exec += v["executions"].as_u64().unwrap_or(0);
+            h_trans += v["transitions"].as_u64().unwrap_or(0);
+            h_pruned += v["pruned"].as_u64().unwrap_or(0);
+            h_maxd = h_maxd.max(v["max_depth"].as_u64().unwrap_or(0));
+            capped |= v["capped"].as_bool().unwrap_or(false);
+            for (d, c) in v["per_depth"].as_array().unwrap().iter().enumerate() {
+                if per_depth.len() <= d {
+                    per_depth.resize(d + 1, 0);
+                }
+                per_depth[d] += c.as_u64().unwrap_or(0);
+            }
+            for o in v["outcomes"].as_array().unwrap() {
+                outcomes.insert(o.as_u64().unwrap());
+            }
+            if let Ok(keys) = std::fs::read(format!("{out}.keys")) {
+                for c in keys.chunks_exact(8) {
+                    h_states.insert(u64::from_ne_bytes(c.try_into().unwrap()));
+                }
+            }
+            if samples.len() < 4 {
+                for s in v["samples"].as_array().unwrap() {
+                    if samples.len() < 4 {
+                        samples.push(json!({"harness": h.name, "history": s}));
+                    }
+                }
+            }
+            for f in v["found"].as_array().unwrap() {
+                let c = Candidate {
+                    prop: f["prop"].as_str().unwrap().to_string(),
+                    sig: f["sig"].as_str().unwrap().to_string(),
+                    msg: f["msg"].as_str().unwrap().to_string(),
+                    harness: hi,
+                    harness_name: h.name.clone(),
+                    choices: f["choices"].as_array().unwrap().iter().map(|c| c.as_u64().unwrap() as usize).collect(),
+                    history: f["history"].as_array().unwrap().iter().map(|c| c.as_str().unwrap().to_string()).collect(),
+                };
+                // Keep the shortest history per signature.
+                match candidates.iter_mut().find(|o| o.sig == c.sig && o.prop == c.prop) {
+                    Some(o) => {
+                        if c.choices.len() < o.choices.len() {
+                            *o = c;
+                        }
+                    }
+                    None => candidates.push(c),
+                }
+            }
+            let _ = std::fs::remove_file(&out);
+            let _ = std::fs::remove_file(format!("{out}.keys"));
+            let _ = std::fs::remove_file(format!("{out}.crumb"));
+        }
+        total_exec += h_exec;
+        total_trans += h_trans;
+        harness_reports.push(json!({
+            "name": h.name,
+            "bounds": h.describe,
+            "executions": h_exec,
+            "transitions": h_trans,
+            "distinct_states": h_states.len(),
+            "pruned_by_state_key": h_pruned,
+            "max_depth": h_maxd,
+            "nodes_per_depth": per_depth,
+            "wall_s": th.elapsed().as_secs_f64(),
+        }));
+        states.extend(h_states);
+    }
+    // Triage candidates.
+    let known = report::load_known(&format!("{VERIF}/known_findings.txt"));
+    let mut exit = 0;
+    let mut known_seen = Vec::new();
+    let mut violations = 0;
+    for c in &candidates {
+        let viol = report::Violation::new(&c.prop, &c.sig, &c.msg);
+        if c.prop != prop {
+            // Another property's oracle fired in a shared world: not ours to report.
+            continue;
+        }
+        if let Some(k) = report::is_known(&known, &viol) {
+            println!("KNOWN-FINDING: property={} {} {}", c.prop, c.sig, k.text);
+            known_seen.push(json!({"signature": c.sig, "harness": c.harness_name, "history": c.history}));
+            continue;
+        }
+        // Confirm by two replays in fresh processes.
+        let path = replay_file(prop, tier, c);
+        let r1 = replay_in_child(&path);
+        let r2 = replay_in_child(&path);
+        match (r1, r2) {
+            (Ok(a), Ok(b)) if a.contains(&c.sig) && b.contains(&c.sig) => {
+                println!("VIOLATION property={} replay={}", c.prop, path);
+                println!("  signature: {}", c.sig);
+                println!("  harness:   {}", c.harness_name);
+                println!("  {}", c.msg);
+                for (i, a) in c.history.iter().enumerate() {
+                    println!("    {i:2}: {a}");
+                }
+                violations += 1;
+                exit = 1;
+            }
+            (a, b) => {
+                machinery.push(format!("violation {} not reproduced deterministically ({a:?} / {b:?}); replay {path}", c.sig));
+            }
+        }
+    }
+    if !machinery.is_empty() {
+        for m in &machinery {
+            println!("MACHINERY: {m}");
+        }
+        if exit == 0 {
+            exit = 2;
+        }
+    }
+    let wall = t0.elapsed().as_secs_f64();
+    let ev = json!({
+        "property_id": prop,
+        "tier": tier,
+        "seed": seed(),
+        "level": "model_checking",
+        "coverage": {
+            "states": states.len().max(1),
+            "transitions": total_trans.max(1),
+            "traces_validated_against_impl": total_exec,
+            "samples": samples,
+            "exhaustive": !capped,
+            "explanation": "every explored history was executed on the real a10 code against the simulated kernel; states = distinct canonical state keys, transitions = actions executed, traces = complete histories (each closed by the epilogue and the end-of-history oracles)",
+            "harnesses": harness_reports,
+            "distinct_outcomes": outcomes.len(),
+            "caps_hit": capped,
+            "known_findings_seen": known_seen,
+            "workers": n,
+        },
+        "assumptions": props::assumptions(prop),
+        "wall_s": wall,
+        "violations": violations,
+    });
+    std::fs::create_dir_all(format!("{VERIF}/evidence")).unwrap();
+    report::write_json(&format!("{VERIF}/evidence/{prop}.json"), &ev);
+    println!(
+        "{prop} {tier}: {} histories, {} transitions, {} distinct states, {} distinct observations, {:.1}s{}",
+        total_exec,
+        total_trans,
+        states.len(),
+        outcomes.len(),
+        wall,
+        if capped { " (CAPPED)" } else { "" }
+    );
+    exit
 }
 
 fn main() {
     let args: Vec<String> = std::env::args().collect();
-    match args.get(1).map(|s| s.as_str()) {
-        Some("smoke") => smoke(),
-        _ => eprintln!("usage"),
-    }
+    let code = match args.get(1).map(|s| s.as_str()) {
+        Some("check") => check(&args[2], args.get(3).map(|s| s.as_str()).unwrap_or("quick")),
+        Some("worker") => worker(&args[2..]),
+        Some("replay") => replay(&args[2]),
+        Some("replay-inner") => replay_inner(&args[2]),
+        Some("selftest") => {
+            init_process();
+            println!("interposer live");
+            0
+        }
+        _ => {
+            eprintln!("usage: a10mc check <prop> <tier> | replay <file> | selftest");
+            2
+        }
+    };
+    std::process::exit(code);
 }
